@@ -15,15 +15,86 @@ FLAVOURS = {
     "plain": dict(cxx=["clang++"], flags=["-std=c++17", "-O2", "-DSPECTRA_VERIF", "-pthread"] + COMMON_WARN, ldflags=["-pthread"]),
     # a second compiler: behaviour the C++ standard leaves to the implementation (evaluation order of function arguments, ...) shows up as a difference
     "gcc-plain": dict(cxx=["g++"], flags=["-std=c++17", "-O2", "-DSPECTRA_VERIF", "-pthread"] + COMMON_WARN, ldflags=["-pthread"]),
+    # no sanitizer: the binary that runs under valgrind memcheck (DWARF 4: valgrind 3.19 cannot read clang 14's DWARF 5 forms)
+    "memcheck": dict(cxx=["clang++"], flags=["-std=c++17", "-O1", "-gdwarf-4", "-fno-omit-frame-pointer", "-DSPECTRA_VERIF", "-pthread"] + COMMON_WARN, ldflags=["-pthread"]),
     "plain-nohook": dict(cxx=["clang++"], flags=["-std=c++17", "-O2", "-pthread"] + COMMON_WARN, ldflags=["-pthread"]),
 }
 
 PROPS = {}
 
 
-def prop(pid, level, rule, jobs, assumptions=None, exhaustive=False, exhaustive_tiers=None, extras=None):
+def prop(pid, level, rule, jobs, assumptions=None, exhaustive=False, exhaustive_tiers=None, extras=None, extra_jobs=None):
     PROPS[pid] = dict(level=level, rule=rule, jobs=jobs, assumptions=assumptions or [], exhaustive=exhaustive,
-                      exhaustive_tiers=exhaustive_tiers or ["quick", "thorough"], extras=extras or [])
+                      exhaustive_tiers=exhaustive_tiers or ["quick", "thorough"], extras=extras or [], extra_jobs=extra_jobs or [])
+
+
+def memcheck_monitor(mjobs, cap_quick, cap_thorough):
+    """Extra monitor: the same driver, built without a sanitizer, run under valgrind memcheck on the first `cap` cases of each job.
+    What it adds to ASan/UBSan: reads of uninitialised memory that reach a branch, an address or a system call (ASan does not see those;
+    MemorySanitizer is unusable with an uninstrumented libstdc++), and accesses ASan's red zones miss (memcheck tracks every byte's addressability)."""
+    def fn(env):
+        import subprocess, re, os, tempfile
+        from concurrent.futures import ThreadPoolExecutor
+        cov, viols = {}, []
+        wd = env["workdir"]
+        # positive control: memcheck must flag a branch on an uninitialised heap value
+        csrc = os.path.join(wd, "mc_canary.cpp")
+        open(csrc, "w").write("#include <cstdio>\n#include <cstdlib>\nint main(int c, char**){ int* p = (int*) malloc(16); if (p[c] == 3) puts(\"x\"); free(p); return 0; }\n")
+        cexe = os.path.join(wd, "mc_canary")
+        subprocess.run(["clang++", "-O0", "-gdwarf-4", csrc, "-o", cexe], check=True)
+        r = subprocess.run(["valgrind", "--quiet", "--error-exitcode=97", cexe], stdout=subprocess.PIPE, stderr=subprocess.PIPE, text=True)
+        cov["canary_detected"] = (r.returncode == 97)
+        if r.returncode != 97:
+            raise RuntimeError("valgrind memcheck canary not detected (rc=%d)" % r.returncode)
+        cap = cap_thorough if env["tier"] == "thorough" else cap_quick
+        tasks = []
+        for j in mjobs:
+            exe = env["exes"].get(j["name"]) or env["build"](j)
+            total = int(subprocess.run([exe, "--tier", env["tier"], "--seed", str(env["seed"]), "--ncases"], stdout=subprocess.PIPE, text=True).stdout.strip() or "0")
+            n = min(total, cap)
+            nsl = max(1, min(env["JOBS"], n // 50))
+            for k in range(nsl):
+                tasks.append((j["name"], exe, k * n // nsl, (k + 1) * n // nsl))
+            cov["cases/" + j["name"]] = n
+
+        def run(t):
+            name, exe, a, b = t
+            vlog = os.path.join(wd, "memcheck.%s.%d.txt" % (name, a))
+            dlog = os.path.join(wd, "memcheck.%s.%d.log" % (name, a))
+            e = dict(os.environ)
+            e.pop("VF_CASE_CPU", None)
+            p = subprocess.run(["valgrind", "--quiet", "--error-exitcode=97", "--undef-value-errors=yes", "--leak-check=no", "--num-callers=24", "--log-file=" + vlog,
+                                exe, "--tier", env["tier"], "--seed", str(env["seed"]), "--worker", "0", "--nworkers", "1", "--start", str(a), "--stop", str(b), "--log", dlog],
+                               stdout=subprocess.PIPE, stderr=subprocess.PIPE, text=True, env=e, cwd=wd, timeout=3600)
+            done = 0
+            try:
+                done = sum(1 for l in open(dlog) if l.startswith("E "))
+            except OSError:
+                pass
+            return name, a, b, p.returncode, open(vlog, errors="replace").read() if os.path.exists(vlog) else "", done
+
+        ndone, nerr = 0, 0
+        with ThreadPoolExecutor(max_workers=env["JOBS"]) as pool:
+            for name, a, b, rc, text, done in pool.map(run, tasks):
+                ndone += done
+                blocks = re.split(r"\n==\d+== \n", text)
+                for blk in blocks:
+                    m = re.search(r"==\d+== (Conditional jump or move depends on uninitialised value\(s\)|Use of uninitialised value of size \d+|Invalid (?:read|write) of size \d+|Syscall param .*? uninitialised.*|Invalid free.*|Mismatched free.*|Source and destination overlap.*|Process terminating.*)", blk)
+                    if not m:
+                        continue
+                    nerr += 1
+                    kind = re.sub(r"\d+", "N", m.group(1))[:50].strip().replace(" ", "_")
+                    f = re.search(r"(?:at|by) 0x[0-9A-F]+: (Spectra::[A-Za-z0-9_:~<>, ]+?)[\(<]", blk)
+                    top = f.group(1).strip() if f else "?"
+                    viols.append(dict(key="memcheck/%s/%s" % (kind, top), idx=a, job=name, details=dict(slice=[a, b], report=blk[:2500])))
+                if rc not in (0, 97):
+                    viols.append(dict(key="harness/memcheck-run-failed", idx=a, job=name, details=dict(rc=rc, tail=text[-1500:])))
+        cov["cases_run_under_memcheck"] = ndone
+        cov["error_reports"] = nerr
+        if ndone == 0:
+            raise RuntimeError("memcheck monitor ran no case")
+        return cov, viols
+    return fn
 
 
 TRUST = ["Eigen 3.4 dense decompositions in long double are the reference for spectra and residuals",
@@ -184,6 +255,7 @@ prop("C02", "exploration",
 
 # ------------------------------------------------------------------------------------------ C06
 ZOO_DEPS = SOLVER_DEPS + ["common/zoo.hpp"]
+C06_MEMCHECK_JOBS = [dict(name="c06m_g%d" % g, sources=["c06_history.cpp"], flavour="memcheck", flags=["-DZOO_GROUP=%d" % g], deps=ZOO_DEPS) for g in (0, 1, 2)]
 prop("C06", "exploration",
      "for each of 17 solver configurations (standard, shift-and-invert, generalized in all five modes; dense and sparse wrappers) and a generated problem (60% clean / 40% hostile domain): "
      "the pair init(v)|init(); compute(args) is executed on (a) a fresh solver with a fresh operator, (b) a solver that first went through a random pre-history of length 0..4 (6 thorough) over "
@@ -191,10 +263,12 @@ prop("C06", "exploration",
      "(return value, info, num_iterations, num_operations, raw bytes of eigenvalues() and eigenvectors()) must be identical, and the operator applied to a fixed vector must give the same bytes "
      "before and after compute(). Non-trivial = the observed run restarted at least once and the pre-history was not empty; distinct by (solver, n, nev, ncv, pre-history word, maxit, operation count)",
      [dict(name="c06_g%d" % g, sources=["c06_history.cpp"], flavour="asan", flags=["-DZOO_GROUP=%d" % g], deps=ZOO_DEPS) for g in (0, 1, 2)],
-     assumptions=TRUST + ["bitwise comparison is sound because all compared runs execute in one process on identically aligned Eigen buffers (no run-time dispatch in Eigen)"])
+     assumptions=TRUST + ["bitwise comparison is sound because all compared runs execute in one process on identically aligned Eigen buffers (no run-time dispatch in Eigen)"],
+     extra_jobs=C06_MEMCHECK_JOBS, extras=[dict(name="c06_memcheck_monitor", fn=memcheck_monitor(C06_MEMCHECK_JOBS, 1000, 10000))])
 
 
 # ------------------------------------------------------------------------------------------ C05
+C05_MEMCHECK_JOBS = [dict(name="c05m_g%d" % g, sources=["c05_api.cpp"], flavour="memcheck", flags=["-DZOO_GROUP=%d" % g], deps=ZOO_DEPS + ["common/fachook.hpp"]) for g in (0, 1, 2)]
 prop("C05", "exploration",
      "for each of 17 solver configurations and a generated problem (65% clean / 35% hostile domain): a random interleaving (length 2..5, 7 thorough) of init(), init(v), compute(selection, maxit, tol, sorting) "
      "with maxit from {0,0,1,1,2,3,5,10,300} and accessor reads; before any compute(): info()==NotComputed and empty accessors; after every compute(): return value == eigenvalues().size() == "
@@ -202,10 +276,12 @@ prop("C05", "exploration",
      "it ten times better), num_operations() == applications seen by the counting wrapper since init() (applications at a foreign shift excluded), restarts (compress hook events) <= maxit. "
      "Non-trivial = some compute() restarted at least once and returned a pair; distinct by (solver, n, nev, ncv, history word, scale, total applications)",
      [dict(name="c05_g%d" % g, sources=["c05_api.cpp"], flavour="asan", flags=["-DZOO_GROUP=%d" % g], deps=ZOO_DEPS + ["common/fachook.hpp"]) for g in (0, 1, 2)],
-     assumptions=TRUST + ["the number of restarts is observed as the number of compress_V hook events, the number of operator applications by a wrapper around the user's operator"])
+     assumptions=TRUST + ["the number of restarts is observed as the number of compress_V hook events, the number of operator applications by a wrapper around the user's operator"],
+     extra_jobs=C05_MEMCHECK_JOBS, extras=[dict(name="c05_memcheck_monitor", fn=memcheck_monitor(C05_MEMCHECK_JOBS, 1300, 20000))])
 
 
 # ------------------------------------------------------------------------------------------ C13
+C13_MEMCHECK_JOBS = [dict(name="c13m_g%d" % g, sources=["c13_safety.cpp"], flavour="memcheck", flags=["-DZOO_GROUP=%d" % g], deps=ZOO_DEPS + ["common/fachook.hpp"]) for g in (0, 1, 2)]
 prop("C13", "exploration",
      "(A) hostile workload: 17 solver configurations + PartialSVDSolver on finite matrices of norm 1e-8..1e8 from every generator class plus the named degenerate inputs (zero, identity, scaled identity, "
      "rank one, exact ties in every selection key), half of the cases with n <= 10 (all legal (nev, ncv) shapes incl. ncv = nev+1/nev+2 and ncv = n), all rules, maxit from 0, four start-vector kinds; "
@@ -217,7 +293,8 @@ prop("C13", "exploration",
      [dict(name="c13_g%d" % g, sources=["c13_safety.cpp"], flavour="asan", flags=["-DZOO_GROUP=%d" % g], deps=ZOO_DEPS + ["common/fachook.hpp"], cpu_limit=30, hang_is_violation=True) for g in (0, 1, 2)] +
      [dict(name="c13n_g%d" % g, sources=["c13_safety.cpp"], flavour="asan-ndebug", flags=["-DZOO_GROUP=%d" % g], deps=ZOO_DEPS + ["common/fachook.hpp"], cpu_limit=30, hang_is_violation=True) for g in (0, 1, 2)],
      assumptions=TRUST + ["termination is decided by the operator-application bound enforced inside the wrapper and, for a loop that applies no operator at all, by a budget of 30 CPU-seconds "
-                          "per case (cases take milliseconds; CPU time of the process, so machine load does not matter), confirmed by re-running the case alone; never by wall-clock time"])
+                          "per case (cases take milliseconds; CPU time of the process, so machine load does not matter), confirmed by re-running the case alone; never by wall-clock time"],
+     extra_jobs=C13_MEMCHECK_JOBS, extras=[dict(name="c13_memcheck_monitor", fn=memcheck_monitor(C13_MEMCHECK_JOBS, 6000, 60000))])
 
 
 # ------------------------------------------------------------------------------------------ C14
